@@ -540,6 +540,9 @@ def _add_run(pid, run):
     else:
         PROPERTIES[pid]["runs"] = list(old) + [run]
 
+_add_run("C10", Run("chains", ["./internal/zzverif/hchains"], CHAINS_HARNESS, ["VerifC10ChainUnionDefault"], "internal/zzverif/hchains", test_pkg_name="hchains",
+                    needs_leaf=True, judge="prefix:C10"))
+_add_run("C10", Run("openapi_enums", ["./internal/openapi"], OPENAPI_HARNESS, ["VerifParserOpenAPI"], "internal/openapi", needs_leaf=True, judge="prefix:C10"))
 _add_run("C10", Run("constant_union", ["./internal/ast/compiler"], COMPILER_HARNESS, ["VerifC10ConstantUnionDefault"], "internal/ast/compiler", needs_leaf=True, judge="prefix:C10"))
 _add_run("C08", Run("openapi_constraints", ["./internal/openapi"], OPENAPI_HARNESS, ["VerifC08OpenAPIConstraints"], "internal/openapi", needs_leaf=True, judge="prefix:C08"))
 _add_run("C07", Run("output_languages", ["./internal/codegen"], {"internal/codegen/zz_verif_c16_context.go": "harness/pcodegen/zz_verif_c16_context.go"},
